@@ -298,6 +298,41 @@ def _real(f: list[str]) -> str:
             cc = getattr(n, "country_code", None) if isinstance(o, BBAN) else None
             return type(n).__name__ + " " + hx(str(n)) + " " + ("-" if cc is None else hx(cc))
         return outcome(do, show)
+    if op == "obj.persist":
+        # an IBAN object is observed, then handed to every kind of library call that takes a text or an
+        # object (constructors of all three classes under its own and under another country, from_bban,
+        # copies, comparisons, validation, lookups), then observed again: nothing may have changed
+        import copy
+        import pickle
+        o = IBAN(unhx(f[1]), allow_invalid=True)
+        other = unhx(f[2])
+        b = o.bban
+
+        def observe():
+            return parts_line(o) + " | " + outcome(lambda: o.bban.bank, lambda e: "-" if e is None else hx(str(e.get("bic")))) \
+                + " | " + outcome(lambda: o.country, lambda c: "-" if c is None else hx(c.alpha_2)) \
+                + " | " + hx(str(b)) + " " + hx(str(getattr(b, "country_code", "")))
+        before = observe()
+        touches = [
+            lambda: BBAN(other, b), lambda: BBAN(o.country_code, b), lambda: BBAN(other, o),
+            lambda: IBAN(o), lambda: IBAN(o, allow_invalid=True), lambda: IBAN(b, allow_invalid=True),
+            lambda: IBAN.from_bban(other, b, allow_invalid=True), lambda: IBAN.from_bban(o.country_code, b),
+            lambda: IBAN.from_bban(other, str(b), allow_invalid=True),
+            lambda: BIC(o, allow_invalid=True), lambda: BIC(b, allow_invalid=True),
+            lambda: BIC(str(o)[:4] + other + str(o)[6:8], allow_invalid=True).country,
+            lambda: copy.copy(o), lambda: copy.deepcopy(o), lambda: pickle.loads(pickle.dumps(o)),
+            lambda: (o == b, o < b, hash(o), sorted([o, b, str(o)])), lambda: o.validate(), lambda: o.validate(True),
+            lambda: o.is_valid, lambda: o.bic, lambda: o.bank_name, lambda: b.validate_national_checksum(),
+            lambda: IBAN.generate(other, "1", "1"), lambda: IBAN.generate(o.country_code, o.bank_code, o.account_code),
+            lambda: IBAN.random(other, random=__import__("random").Random(1)),
+        ]
+        for t in touches:
+            try:
+                t()
+            except Exception:  # noqa: BLE001
+                pass
+        after = observe()
+        return "ok SAME" if before == after else "ok CHANGED " + before.replace(" ", "_") + " -> " + after.replace(" ", "_")
     if op == "json.merge":
         import copy
         l, r = jdec(f[1]), jdec(f[2])
